@@ -258,6 +258,15 @@ func (prop) Drive(d *core.Driver) error {
 		}
 		progs = append(progs, Prog{ID: fmt.Sprintf("%s.m%d", p.ID, k), Origin: "corpus", Kind: mu.Kind, Note: mu.Desc, Src: mu.Src})
 	}
+	// Systematic part, the same at every seed: every member of the generated
+	// snippet families alone in a minimal host program, and every program of
+	// the dependency-analysis family.
+	for i, sn := range typedprog.Snippets[typedprog.HandWritten:] {
+		progs = append(progs, Prog{ID: fmt.Sprintf("family%d", i), Origin: "family", Kind: "snippet", Note: core.Truncate(sn, 80), Src: "package main\n\nfunc main() {\n\t" + sn + "\n}\n"})
+	}
+	for i, src := range typedprog.DependencyPrograms() {
+		progs = append(progs, Prog{ID: fmt.Sprintf("deps%d", i), Origin: "family", Kind: "dependency-program", Src: src})
+	}
 	// The worker keeps the sweep away from the constructs of the open findings:
 	// it evaluates the scope predicates (scope.go) on the reference's syntax
 	// tree and type information and does not judge a program inside a scope.
